@@ -132,3 +132,29 @@ func Harness_C17_operator_chains() {
 	verifAssert(t_ops5(a, b) == (a+1 > b-1), "t_ops5: arithmetic binds tighter than comparison")
 	verifCover("end")
 }
+
+func Harness_C17_effect_order() {
+	a, b, c := verifInt("a"), verifInt("b"), verifInt("c")
+	var got, want int
+	og := observe(func() { got = t_record_effects(a, b) })
+	ow := observe(func() { y := tr(a); x := tr(b); want = x - y })
+	verifAssert(got == want && sameObs(og, ow), "t_record_effects: record fields are evaluated in the order written (not the declared order)")
+	og = observe(func() { got = t_record_effects2(a, b) })
+	ow = observe(func() { x := tr(a); y := tr(b); want = x - y })
+	verifAssert(got == want && sameObs(og, ow), "t_record_effects2: record fields in declared order")
+	og = observe(func() { got = t_tuple_effects(a, b) })
+	ow = observe(func() { x := tr(b); tr(a); want = x })
+	verifAssert(got == want && sameObs(og, ow), "t_tuple_effects: tuple components left to right")
+	var gs []int
+	og = observe(func() { gs = t_slice_effects(a, b) })
+	ow = observe(func() { tr(b); tr(a); tr(7) })
+	verifAssert(sameInts(gs, []int{b, a, 7}) && sameObs(og, ow), "t_slice_effects: slice elements left to right")
+	og = observe(func() { got = t_args_effects(a, b, c) })
+	ow = observe(func() { x := tr(c); y := tr(a); z := tr(b); want = refT3(x, y, z) })
+	verifAssert(got == want && sameObs(og, ow), "t_args_effects: call arguments left to right")
+	var sh Shape
+	og = observe(func() { sh = t_union_effects(a) })
+	ow = observe(func() { tr(a) })
+	verifAssert(sh == New_Shape_Circle(a) && sameObs(og, ow), "t_union_effects: constructor argument evaluated once")
+	verifCover("end")
+}
